@@ -117,6 +117,8 @@ pub fn run_c04(ctx: &Ctx) -> i32 {
     st = st.merge(drive(ctx, &Rich::new(1, rich_hi, vec!["execute", "instantiate"]), &all[..ctx.tier.pick(1, 3)], false, &homes, &sampler));
     // a chain whose Api normalises addresses: events carry the address, not the message's spelling
     st.programs += super::envelope::normalising_api_events_stage(ctx);
+    // the data envelope at the length boundaries of its encoding
+    st.programs += super::envelope::data_length_stage(ctx);
     finish(
         ctx,
         &st,
@@ -305,12 +307,16 @@ pub fn run_c10(ctx: &Ctx) -> i32 {
 
 // (white space is what `char::is_whitespace` says: U+00A0, U+2003, U+0085 and the vertical tab U+000B
 // count, so a key or type made of them is blank)
-const C13_STRINGS: [&str; 36] = ["", " ", "\t\n", "_", "_a", " _a", "a_", "a", " a ", "__", "é", "_é", "ab", "a ", "-", "  ", "x", " x ", "éé", "a_b", " ab ", "\n_k",
+const C13_STRINGS: [&str; 38] = ["", " ", "\t\n", "_", "_a", " _a", "a_", "a", " a ", "__", "é", "_é", "ab", "a ", "-", "  ", "x", " x ", "éé", "a_b", " ab ", "\n_k",
     "\u{a0}", "\u{2003}_x", "\u{a0}e", "\u{b}x\u{b}", "\u{85}ab\u{2003}", "\u{3000}", "a\u{a0}b",
     // the one reserved key the simulator writes itself, and its neighbours
     "_contract_address", " _contract_address ", "_contract_addr",
     // event types that look like the prefix the simulator adds, or like a module's own event
-    "wasm-x", "wasm-", "wasm", "transfer"];
+    "wasm-x", "wasm-", "wasm", "transfer",
+    // long enough for a refusal that quotes them to need shortening, with multi-byte characters at every
+    // even byte offset (a reserved key, and an acceptable one)
+    "_éééééééééééééééééééééééééééééééééééééééé",
+    "xéééééééééééééééééééééééééééééééééééééééé"];
 const C13_POS: [&str; 7] = ["attr-key", "attr-value", "event-attr-key", "event-attr-value", "event-type", "attr-key-with-empty-value", "event-attr-key-with-blank-value"];
 
 fn c13_node(pos: usize, s: &str, idx: usize) -> Node {
